@@ -480,3 +480,59 @@ def clone(node):
         if hasattr(node, a):
             setattr(new, a, getattr(node, a))
     return new
+
+
+class _Rename(ast.NodeTransformer):
+    def __init__(self, table):
+        self.table = table
+
+    def visit_Name(self, node):
+        if node.id in self.table and isinstance(node.ctx, ast.Load):
+            return clone(self.table[node.id])
+        return node
+
+
+def unroll_literal_loops(func: ast.FunctionDef) -> ast.FunctionDef:
+    """Clone of func in which every ``for a, b in ((x1, y1), (x2, y2))`` over a
+    literal tuple/list is replaced by one copy of the body per row with the
+    targets substituted (so indirections through such tables disappear)."""
+    new = clone(func)
+
+    def expand(stmts):
+        out = []
+        for st in stmts:
+            for f in ("body", "orelse", "finalbody"):
+                if hasattr(st, f) and isinstance(getattr(st, f), list):
+                    setattr(st, f, expand(getattr(st, f)))
+            if isinstance(st, ast.For) and isinstance(
+                    st.iter, (ast.Tuple, ast.List)) and st.iter.elts and \
+                    not st.orelse:
+                rows = st.iter.elts
+                tgt = st.target
+                ok = True
+                copies = []
+                for row in rows:
+                    table = {}
+                    if isinstance(tgt, ast.Name):
+                        table[tgt.id] = row
+                    elif isinstance(tgt, (ast.Tuple, ast.List)) and isinstance(
+                            row, (ast.Tuple, ast.List)) and len(row.elts) == len(
+                            tgt.elts) and all(isinstance(t, ast.Name)
+                                              for t in tgt.elts):
+                        for t, r in zip(tgt.elts, row.elts):
+                            table[t.id] = r
+                    else:
+                        ok = False
+                        break
+                    body = [_Rename(table).visit(clone(b)) for b in st.body]
+                    copies.extend(body)
+                if ok:
+                    out.extend(copies)
+                    continue
+            out.append(st)
+        return out
+
+    new.body = expand(new.body)
+    ast.fix_missing_locations(new)
+    set_parents(new)
+    return new
